@@ -237,6 +237,7 @@ pub fn run(run: &Run) {
     run.explore(&u2::LenUniverse { presents: u2::Presents::AcceptedStride(run.tier.pick(127, 13)), name: "U2-len/accepted-stride" });
     run.explore(&u2::sig_universe());
     run.explore(&u2::addr_universe());
+    run.explore(&u2::anybyte_universe());
     run.explore(&u2::byte_universe(run.tier.pick(3, 4)));
     run.explore(&super::c11::EmbeddedTlv { n: run.tier.pick(5, 7) });
     run.explore(&super::c11::EmbeddedText { n: run.tier.pick(5, 7) });
